@@ -31,6 +31,9 @@
 //!               judged against the same fresh-instance oracle, so deduplication cannot hide
 //!               history dependence.
 
+#[path = "c10x/glob.rs"]
+mod globfam;
+
 use mccore::engine::{self, Out};
 use mccore::{Acc, Family, Json, Run, json};
 use std::collections::{BTreeMap, HashMap};
@@ -1302,7 +1305,7 @@ fn main() {
     run.assume("history length <= 2 (quick) / <= 3 (thorough) without deduplication; to depth 3 / 5 modulo the canonical state, each state expanded from up to three live representatives (first history, one alternative accepted path, one history ending in a refused call)");
     run.assume("the observation (get_template_names, render, render_block t/u, get_template_variables per catalogue name; get_component_definition, render_str and render_component for X; one context with special characters) is what 'behaves exactly like' means; error messages are not compared, error kinds are");
     run.assume("fresh-instance behaviour is memoised per canonical state inside a worker (a fresh instance has no history); sorted-order and reverse-order one-batch instances are compared whenever an entry is built");
-    run.assume("add_raw_template(s), autoescape_on, and (family file-api) add_template_file(s) with an explicit name; load_from_glob / full_reload (feature glob_fs, off by default) are not driven; default features; delimiters fixed");
+    run.assume("add_raw_template(s), autoescape_on, (family file-api) add_template_file(s) with an explicit name, and (family glob-api; the subject is built with its cargo feature glob_fs) load_from_glob / full_reload over six fixed directories; the glob operations are explored in their own histories, not interleaved with the catalogue of the other families; delimiters fixed");
 
     let cfgs = [Cfg::new(0), Cfg::new(1)];
     let n_ops: Vec<u64> = cfgs.iter().map(|c| c.ops.len() as u64).collect();
@@ -1578,6 +1581,144 @@ fn main() {
             tally.flush(acc);
         },
     );
+    // ------------------------------------------------------------------------------ glob-api
+    // load_from_glob / full_reload (c10x/glob.rs): every history of the thirteen operations up to
+    // the depth bound; after every call the instance must look like a fresh one holding the state
+    // the model expects (the requested one when that is a valid set, the previous one otherwise).
+    let glob_root = files_dir.join("glob");
+    if run.is_supervisor() {
+        globfam::Store::create(&glob_root);
+    }
+    {
+        let gops = globfam::ops();
+        let n = gops.len() as u64;
+        let gdepth: u32 = if thorough { 6 } else { 5 };
+        let g_total: u64 = (1..=gdepth).map(|d| n.pow(d)).sum();
+        let gops_ref = &gops;
+        let glob_root_ref = &glob_root;
+        run.family(
+            Family::new(
+                "glob-api",
+                n * n,
+                &format!(
+                    "ALL histories of length <= {gdepth} ({g_total} transitions) over {n} operations: load_from_glob of six directories (two valid, one with a syntax error, one with a dangling parent, one valid only next to a manual template, one redefining the component), of a pattern without `*`, of a pattern that does not build, of a pattern matching nothing; full_reload; three manual templates valid only next to the right glob. After EVERY call: accepted exactly when the requested set is valid on a fresh instance, and the instance (template names, render and render_block of nine names, component definition, render_component, render_str) equal to a fresh instance holding the expected state"
+                ),
+            )
+            .describe(|item| json!({"api": "load_from_glob / full_reload", "history_prefix": [globfam::op_json(gops_ref[(item / n) as usize]), globfam::op_json(gops_ref[(item % n) as usize])], "note": "every continuation of this prefix up to the depth bound is executed inside the item"}))
+            .crash_signature(|_, kind| format!("{kind}:glob-api")),
+            |item, acc: &mut Acc| {
+                let store = globfam::Store::create(glob_root_ref);
+                let mut oracle = globfam::Oracle::default();
+                let labels = globfam::obs_labels();
+                struct G<'a> {
+                    store: &'a globfam::Store,
+                    oracle: &'a mut globfam::Oracle,
+                    labels: &'a [String],
+                    ops: &'a [globfam::Op],
+                    counts: BTreeMap<&'static str, u64>,
+                }
+                // executes `op` on a copy of `t`; returns the new instance and state
+                fn step(g: &mut G, acc: &mut Acc, t: &Tera, st: globfam::State, hist: &mut Vec<(globfam::Op, bool)>, op: globfam::Op, count: bool) -> (Tera, globfam::State) {
+                    let mut t2 = t.clone();
+                    let out = globfam::apply(&mut t2, g.store, op);
+                    let want_state = globfam::requested(st, op).filter(|r| g.oracle.fresh(*r).is_some());
+                    let expected_state = want_state.unwrap_or(st);
+                    hist.push((op, out.is_ok()));
+                    let case = |extra: Json| {
+                        let mut j = json!({
+                            "family": "glob-api",
+                            "history": hist.iter().map(|(o, ok)| { let mut j = globfam::op_json(*o); j.as_object_mut().unwrap().insert("returned".into(), json!(if *ok { "Ok" } else { "Err" })); j }).collect::<Vec<_>>(),
+                            "state_before_last_call": st.json(),
+                            "expected_state_after": expected_state.json(),
+                        });
+                        j.as_object_mut().unwrap().insert("details".into(), extra);
+                        j
+                    };
+                    let opname = match op {
+                        globfam::Op::Glob(_) | globfam::Op::NoStar | globfam::Op::Unbuildable | globfam::Op::MatchesNothing => "load_from_glob",
+                        globfam::Op::Reload => "full_reload",
+                        globfam::Op::Manual(_) => "add_raw_template",
+                    };
+                    let mut class: &'static str = if out.is_ok() { "accepted" } else { "refused" };
+                    match (&out, want_state.is_some()) {
+                        (Out::Panic(p), _) => {
+                            acc.violation(format!("glob-api:panic:{opname}"), format!("{opname} panicked: {p}"), || case(json!({})));
+                            class = "panic";
+                        }
+                        (Out::Ok(_), false) => {
+                            acc.violation(format!("glob-api:accepted-invalid:{opname}"), format!("{opname} returned Ok although the requested template set is refused by a fresh instance (or the call cannot succeed)"), || case(json!({})));
+                            class = "wrongly-accepted";
+                        }
+                        (Out::Err(..), true) => {
+                            acc.violation(format!("glob-api:refused-valid:{opname}"), format!("{opname} failed ({}) although a fresh instance accepts the requested template set", out.show()), || case(json!({})));
+                            class = "wrongly-refused";
+                        }
+                        _ => {}
+                    }
+                    let obs = globfam::observe(&t2);
+                    let want = g.oracle.fresh(expected_state).clone().expect("the expected state is valid by construction");
+                    if obs != want {
+                        let i = (0..obs.len()).find(|i| obs[*i] != want[*i]).unwrap();
+                        let what = if out.is_ok() { "after-accepted" } else { "after-refused" };
+                        acc.violation(
+                            format!("glob-api:{what}:{opname}:{}", g.labels[i].split('(').next().unwrap_or("")),
+                            format!("after {opname} returned {}, {} gives {} but a fresh instance holding the expected state gives {}", if out.is_ok() { "Ok" } else { "Err" }, g.labels[i], obs[i], want[i]),
+                            || case(json!({"differences": (0..obs.len()).filter(|i| obs[*i] != want[*i]).map(|i| json!({"call": g.labels[i], "observed": obs[i], "fresh_instance": want[i]})).collect::<Vec<_>>()})),
+                        );
+                        class = "wrong-observation";
+                    }
+                    if count {
+                        acc.case(true, class);
+                        let nonempty = st != globfam::State::default();
+                        let key: &'static str = match (out.is_ok(), nonempty) {
+                            (true, _) => "glob_api_ok",
+                            (false, true) => "glob_api_err_on_nonempty",
+                            (false, false) => "glob_api_err_on_empty",
+                        };
+                        *g.counts.entry(key).or_insert(0) += 1;
+                        if !out.is_ok() && st.glob != 0 && matches!(op, globfam::Op::Glob(_) | globfam::Op::NoStar | globfam::Op::Unbuildable) {
+                            *g.counts.entry("glob_api_refused_load_over_loaded_glob").or_insert(0) += 1;
+                        }
+                        if matches!(op, globfam::Op::Reload) && out.is_ok() && hist.iter().rev().skip(1).any(|(_, ok)| !ok) {
+                            *g.counts.entry("glob_api_reload_after_refused_call").or_insert(0) += 1;
+                        }
+                    }
+                    (t2, expected_state)
+                }
+                fn dfs(g: &mut G, acc: &mut Acc, t: &Tera, st: globfam::State, hist: &mut Vec<(globfam::Op, bool)>, left: u32) {
+                    if left == 0 {
+                        return;
+                    }
+                    for i in 0..g.ops.len() {
+                        let op = g.ops[i];
+                        let (t2, st2) = step(g, acc, t, st, hist, op, true);
+                        dfs(g, acc, &t2, st2, hist, left - 1);
+                        hist.pop();
+                    }
+                }
+                let mut g = G { store: &store, oracle: &mut oracle, labels: &labels, ops: gops_ref, counts: BTreeMap::new() };
+                let (o1, o2) = (gops_ref[(item / n) as usize], gops_ref[(item % n) as usize]);
+                let mut hist = vec![];
+                let t0 = Tera::default();
+                // the first call is counted once (by the item whose second call is operation 0)
+                let (t1, s1) = step(&mut g, acc, &t0, globfam::State::default(), &mut hist, o1, item % n == 0);
+                let (t2, s2) = step(&mut g, acc, &t1, s1, &mut hist, o2, true);
+                dfs(&mut g, acc, &t2, s2, &mut hist, gdepth - 2);
+                for (k, v) in g.counts {
+                    acc.count(k, v);
+                }
+            },
+        );
+    }
+    if run.is_supervisor() {
+        let c = |n: &str| run.counter(n);
+        let (ok, err, over, reload) = (c("glob_api_ok"), c("glob_api_err_on_nonempty"), c("glob_api_refused_load_over_loaded_glob"), c("glob_api_reload_after_refused_call"));
+        run.guard(
+            "glob-api-both-outcomes",
+            ok > 100 && err > 100 && over > 100 && reload > 10,
+            format!("accepted={ok} refused on an instance holding templates={err}, of which refused load_from_glob over a loaded glob={over}; accepted full_reload after a refused call={reload}"),
+        );
+    }
     if run.is_supervisor() {
         let _ = std::fs::remove_dir_all(&files_dir);
         let (ok, err) = (run.counter("file_api_ok"), run.counter("file_api_err"));
